@@ -63,11 +63,12 @@ type shimBConn struct {
 }
 
 type shimBackend struct {
-	l     net.Listener
-	addr  string
-	mu    sync.Mutex
-	conns map[string]*shimBConn
-	seen  int64 // upgrades served
+	l         net.Listener
+	addr      string
+	mu        sync.Mutex
+	conns     map[string]*shimBConn
+	seen      int64 // upgrades served
+	redirects int64 // handshakes answered with a redirect
 }
 
 var shimUpgrader = websocket.Upgrader{
@@ -90,6 +91,14 @@ func (b *shimBackend) serve(w http.ResponseWriter, r *http.Request) {
 	if r.Header.Get("X-Verif-Refuse") != "" {
 		http.Error(w, "upgrade refused by the scripted backend", http.StatusForbidden)
 		return
+	}
+	if spec := r.Header.Get("X-Verif-Redirect"); spec != "" {
+		if loc, status := shimRedirectFor(spec, r, b.addr); loc != "" {
+			atomic.AddInt64(&b.redirects, 1)
+			w.Header().Set("Location", loc)
+			w.WriteHeader(status)
+			return
+		}
 	}
 	token := r.Header.Get("X-Verif-Conn")
 	c := &shimBConn{token: token, uri: r.RequestURI, host: r.Host, hdr: r.Header.Clone(),
@@ -116,8 +125,12 @@ func (b *shimBackend) serve(w http.ResponseWriter, r *http.Request) {
 		c.pushOnly(time.Duration(ms) * time.Millisecond)
 		return
 	}
+	slow, _ := strconv.Atoi(r.Header.Get("X-Verif-Slowread")) // ms spent on every message before the next read
 	for {
 		t, d, err := ws.ReadMessage()
+		if slow > 0 && err == nil {
+			time.Sleep(time.Duration(slow) * time.Millisecond)
+		}
 		c.mu.Lock()
 		if err != nil {
 			c.cerr = err.Error()
@@ -132,6 +145,54 @@ func (b *shimBackend) serve(w http.ResponseWriter, r *http.Request) {
 		c.mu.Unlock()
 		close(old)
 	}
+}
+
+// shimRedirectFor implements the backend that answers a websocket handshake
+// with an HTTP redirect (as servers do to add a trailing slash or a base
+// path). spec = "<status>;<kind>"; only paths starting with /redir/ or
+// containing "//" are redirected, and never one that already ends in "/" or
+// is the redirect target, so a client that follows ends up upgraded.
+func shimRedirectFor(spec string, r *http.Request, self string) (string, int) {
+	p := strings.SplitN(spec, ";", 2)
+	status, _ := strconv.Atoi(p[0])
+	if len(p) != 2 || status == 0 {
+		return "", 0
+	}
+	path := r.URL.Path
+	if !(strings.HasPrefix(path, "/redir/") || strings.Contains(path, "//")) || strings.HasSuffix(path, "/") {
+		return "", 0
+	}
+	q := ""
+	if r.URL.RawQuery != "" {
+		q = "?" + r.URL.RawQuery
+	}
+	switch p[1] {
+	case "absolute-foreign":
+		return "ws://evil.example:9/x", status
+	case "http-foreign":
+		return "http://evil.example:9/x", status
+	case "scheme-relative":
+		return "//evil.example:9/x/", status
+	case "path-only":
+		return "/elsewhere", status
+	case "absolute-backend":
+		return "ws://" + self + "/elsewhere", status
+	case "trailing-slash":
+		return r.URL.EscapedPath() + "/" + q, status
+	}
+	return "", 0
+}
+
+// settled waits until the agent has torn its side of the connection down
+// after a backend-initiated close (the backend's read loop ends). Only
+// meaningful when at most 10 messages are undelivered: with more, the
+// agent's reader is parked on its full queue until a poll drains it.
+func (c *shimBConn) settled(undelivered int) bool {
+	if undelivered > 10 {
+		time.Sleep(3 * time.Millisecond)
+		return false
+	}
+	return c.waitClosed(2 * time.Second)
 }
 
 // pushOnly is the busy / push-only backend: it never reads from the
